@@ -209,6 +209,39 @@ def make_components():
         return "rmsd {\n%s  refPositions %s\n  atomPermutation %s\n%s" % (grp("atoms", a), refpos(RR, a), " ".join(str(a[sw[i]] + 1) for i in range(len(a))), extra), [a]
     EXTRA["rmsd_perm"] = ("scalar", rmsd_perm)
 
+    def rot_fit_opts(rng, P, used):
+        """options that make a group be seen in the frame of a separate fitting group (its own atoms are not among the fitting atoms);
+        the reference of the fitting group is the current geometry turned by a sizeable rotation"""
+        import math
+        fit = rng.sample([i for i in range(NAT) if i not in used], 4)
+        th = rng.uniform(0.5, 2.5); ax = [rng.uniform(-1, 1) for _ in range(3)]; n_ = math.sqrt(sum(x * x for x in ax)); ax = [x / n_ for x in ax]
+        def rotv(v):
+            c, s_ = math.cos(th), math.sin(th)
+            d = sum(a * b for a, b in zip(ax, v))
+            cr = [ax[1] * v[2] - ax[2] * v[1], ax[2] * v[0] - ax[0] * v[2], ax[0] * v[1] - ax[1] * v[0]]
+            return [v[i] * c + cr[i] * s_ + ax[i] * d * (1 - c) for i in range(3)]
+        R = {i: rotv(P[i]) for i in fit}
+        RR = [R.get(i, P[i]) for i in range(NAT)]
+        return ("   centerToReference on\n   rotateToReference on\n   fittingGroup {\n    atomNumbers %s\n   }\n   refPositions %s\n"
+                % (" ".join(str(a + 1) for a in sorted(fit)), refpos(RR, sorted(fit)))), fit
+
+    def distance_z_rot(rng, P, extra=""):
+        a, b = two(rng)
+        o, fit = rot_fit_opts(rng, P, a + b)
+        ax = [rng.uniform(-1, 1) for _ in range(3)]
+        g = grp("main", a)
+        g = g.replace("\n", "\n" + o, 1) if False else g[:g.rindex("  }")] + o + "  }\n"
+        return "distanceZ {\n%s%s  axis %s\n%s" % (g, grp("ref", b), vec(ax), extra), [a, b, fit]
+    EXTRA["distanceZ_rot"] = ("scalar", distance_z_rot)
+
+    def distance_rot(rng, P, extra=""):
+        a, b = two(rng)
+        o, fit = rot_fit_opts(rng, P, a + b)
+        g = grp("group1", a)
+        g = g[:g.rindex("  }")] + o + "  }\n"
+        return "distance {\n%s%s%s" % (g, grp("group2", b), extra), [a, b, fit]
+    EXTRA["distance_rot"] = ("scalar", distance_rot)
+
     def eigenvector(rng, P, extra=""):
         a = sorted(many(rng, 4, 7))
         R = [[x + rng.uniform(-0.3, 0.3) for x in P[i]] for i in range(NAT)]
